@@ -248,7 +248,10 @@ def gen_scenario(ch, prof):
     quoting = prof.get("quoting", False)
     for i in range(n):
         grp = groups[g.rint(0, ngroups - 1)] if ngroups > 1 else groups[0]
-        rc = 0 if g.flip(1.0 - p_fail) else g.pick([1, 1, 2, 127, 255, 3])
+        # exit status as Popen reports it: 0-255, or negative when the process died from a signal
+        # (OOM kill -9, SIGTERM -15, segfault -11); the real-probe child can only exit 0-255
+        rc = 0 if g.flip(1.0 - p_fail) else g.pick(
+            [1, 1, 2, 127, 255, 3] + ([] if prof.get("real_probe") else [-9, -15, -11]))
         dur = g.weighted([(0.05, 2), (1.0, 3), (7.0, 3), (45.0, 2), (600.0, 1), (7200.0, 0.3)])
         dur = dur * (0.5 + g.rint(0, 10) / 10.0)
         job = {
